@@ -19,6 +19,10 @@ pub const ENT_LEN: usize = 64;
 pub fn entropy() -> impl Strategy<Value = Vec<u32>> {
     proptest::collection::vec(any::<u32>(), ENT_LEN..=ENT_LEN)
 }
+/// a longer draw vector for programs / histories
+pub fn entropy_n(n: usize) -> impl Strategy<Value = Vec<u32>> {
+    proptest::collection::vec(any::<u32>(), n..=n)
+}
 
 pub const B32: [u32; 44] = [
     0,
@@ -103,6 +107,13 @@ impl<'a> Ent<'a> {
         let x = if self.i < self.v.len() { self.v[self.i] } else { 0 };
         self.i += 1;
         x
+    }
+    /// number of draws consumed so far (generators assert they stay within the vector)
+    pub fn used(&self) -> usize {
+        self.i
+    }
+    pub fn exhausted(&self) -> bool {
+        self.i > self.v.len()
     }
     /// monotone map to 0..n
     pub fn below(&mut self, n: u32) -> u32 {
